@@ -324,6 +324,9 @@ def gen_path_case(r, comp, sdir, tag):
             G.write_xyz(f, [fr[ids.index(i)] for i in order])
             files.append(f)
         p["files"] = files
+        p["frames"] = frames
+        if comp in ("aspath", "azpath") and r.random() < 0.5:
+            p["lambda"] = r.choice([0.5, 1.0, 2.0, 0.25])
         lam = r.uniform(0.3, nfr - 1.3)
         cur = [G.add(ref[k], G.scale(lam, disp[k])) for k in range(n)]
     for k, i in enumerate(ids):
@@ -554,6 +557,23 @@ def check(run):
     for cs in tie_cases:
         i = impl.add(G.impl_line(cs)); m = mod.add(G.model_line(cs))
         jobs.append(("tie", cs, i, m))
+    # arithmetic path variables (aspath, azpath) in Cartesian space: value model
+    sdirp = os.path.join(V.BUILD, "scratch", "C02paths"); os.makedirs(sdirp, exist_ok=True)
+    for comp in ("aspath", "azpath"):
+        for k in range(6 * scale):
+            c = gen_path_case(r, comp, sdirp, "tie_%s_%d" % (comp, k))
+            if c is None:
+                continue
+            pr = c["params"]; ids = c["groups"][0]
+            t = [comp, "1", "0", G.hx(0.0), G.hx(0.0), G.hx(0.0), G.hx(pr["lambda"] if pr.get("lambda") is not None else -1.0),
+                 "%d" % len(pr["frames"]), "%d" % len(ids)]
+            t += [G.hx(x) for fr in pr["frames"] for v in fr for x in v]
+            t += ["G", "%d" % len(ids)]
+            for i in ids:
+                t += ["%d" % (i - 1)] + [G.hx(x) for x in c["atoms"][i - 1]]
+            i = impl.add(G.impl_line([c])); m = mod.add(" ".join(t))
+            c["tol"] = 1e-7
+            jobs.append(("tie", [c], i, m))
     # pair list over steps AND run boundaries: runs of one session starting at arbitrary absolute steps, coordinates replaced
     # between the runs (far apart in one run, in contact in the next), list frequency 2..5
     for k in range(8 * scale):
